@@ -5,7 +5,7 @@
  */
 
 use core::cell::RefCell;
-use alloc::string::String;
+use alloc::vec::Vec;
 use crate::types::*;
 use crate::syntax::{SyntaxParser, SyntaxParserTrait};
 use crate::variable::VariableInfo;
@@ -31,25 +31,18 @@ impl SyntaxParserTrait for AssignmentParser {
         if assignment_index.is_some() {
             let start = parser.get_index();
             let end;
-            let mut variable_name = String::new();
-            variable_name.push_str(&parser.peek_token().unwrap().to_string().to_lowercase()[..]);
-            
+
             while let Some(token) = parser.consume_token() {
-                match token.deref() {
-                    TokenType::Operator(operator) => {
-                        if *operator == '=' {
-                            parser.consume_token();
-                            break;
-                        }
-                    }
-                    _ => {
-                        variable_name.push(' ');
-                        variable_name.push_str(&token.to_string().to_lowercase()[..])
-                    }
-                };
+                if let TokenType::Operator('=') = token.deref() {
+                    parser.consume_token();
+                    break;
+                }
             }
 
             end = parser.get_index() - 1;
+
+            /* Same key as the session uses (VariableInfo::to_string): every token of the name, operators included */
+            let variable_name = parser.tokinizer.tokens[start..end].iter().map(|item| item.to_string().to_lowercase()).collect::<Vec<_>>().join(" ");
 
             let expression = AddSubtractParser::parse(parser);
             match expression {
